@@ -396,7 +396,7 @@ class CNLTransformer(Transformer):
         elif elem == "or":
             return Operators.DISJUNCTION
         elif elem == "implies" or elem == "imply":
-            return Operators.LEFT_IMPLICATION
+            return Operators.RIGHT_IMPLICATION
         elif elem == "equivalent to":
             return Operators.EQUIVALENCE
         elif elem == "trigger" or elem == "triggers":
